@@ -8,7 +8,7 @@ from . import c06
 
 UNITS = ['sdk/src/metrics/instrument_metadata_validator.cc', 'sdk/src/metrics/meter.cc', 'sdk/src/trace/tracer.cc',
          'sdk/src/logs/logger.cc', 'sdk/src/trace/tracer_provider.cc', 'sdk/src/metrics/meter_provider.cc',
-         'sdk/src/logs/logger_provider.cc']
+         'sdk/src/logs/logger_provider.cc', 'sdk/src/metrics/state/temporal_metric_storage.cc', 'sdk/src/metrics/state/sync_metric_storage.cc']
 DRIVERS = ['metrics_headers.cc']
 CANARIES = ['c19_canary.cc']
 
@@ -432,6 +432,7 @@ def run(ck, prog):
     ck.doc('C19.R5', 'GetTracer/GetMeter/GetLogger: locked lookup-then-create on the stored identity', 6)
     ck.doc('C19.R6', 'name/unit patterns equal the documented grammar (parsed normal form, exhaustive byte sets)', 4)
     ck.doc('C06.R5', '(shared rule, see C06) registry writes in the per-view callback use a view-dependent key', 2)
+    ck.doc('C07.R5', '(shared rule, see C07) the view\'s aggregation config reaches every CreateAggregation call of a storage', 3)
     with ck.canary('C19.R1'):
         rule_r1(ck, prog, only='canary::c19::', observe_others=False)
     with ck.canary('C19.R4'):
@@ -443,4 +444,6 @@ def run(ck, prog):
     rule_r5(ck, prog)
     rule_r6(ck, prog)
     c06.rule_r5(ck, prog)
+    from . import c07
+    c07.rule_r5(ck, prog)
     return {}
